@@ -65,6 +65,10 @@ var (
 
 const Version = 3
 
+// MaxNodeSize is the upper bound for the max size of a node,
+// a buffer of that size is allocated whenever a node is read or written
+const MaxNodeSize = 1 << 26 // 64Mb
+
 const (
 	MetaVersion      = "VERSION"
 	MetaMaxNodeSize  = "MAX_NODE_SIZE"
@@ -565,6 +569,18 @@ func OpenWith(path, tsFile string, nLog, hLog, cLog appendable.Appendable, opts 
 	maxValueSize, ok := metadata.GetInt(MetaMaxValueSize)
 	if !ok {
 		maxValueSize = opts.maxValueSize
+	}
+
+	// values read from the metadata are validated as the options they were set from,
+	// buffers are allocated based on them
+	if maxKeySize <= 0 || maxKeySize > math.MaxUint16 {
+		return nil, fmt.Errorf("%w: invalid max key size (%d) in metadata", ErrCorruptedCLog, maxKeySize)
+	}
+	if maxValueSize <= 0 || maxValueSize > math.MaxUint16 {
+		return nil, fmt.Errorf("%w: invalid max value size (%d) in metadata", ErrCorruptedCLog, maxValueSize)
+	}
+	if maxNodeSize > MaxNodeSize {
+		return nil, fmt.Errorf("%w: invalid max node size (%d) in metadata", ErrCorruptedCLog, maxNodeSize)
 	}
 
 	if maxNodeSize < requiredNodeSize(maxKeySize, maxValueSize) {
